@@ -22,7 +22,7 @@ package packet
 //@   requires winv(p2)
 //@   modifies p2.written, p2.buf.B
 //@   ensures winv(p2)
-//@   ensures [C20 sticky] old(wfailed(p2)) ==> wfailed(p2) && view(p2) == old(view(p2))
+//@   ensures [C20 sticky] old(wfailed(p2)) ==> p2.opError == old(p2.opError) && wfailed(p2) && view(p2) == old(view(p2))
 //@   ensures [C20 append] !old(wfailed(p2)) ==> !wfailed(p2) && view(p2) == cat(old(view(p2)), u8(p)) && p2.written == old(p2.written) + 1
 
 //@ func (p2 *Writer) WriteUint16
@@ -30,7 +30,7 @@ package packet
 //@   requires winv(p2)
 //@   modifies p2.written, p2.buf.B
 //@   ensures winv(p2)
-//@   ensures [C20 sticky] old(wfailed(p2)) ==> wfailed(p2) && view(p2) == old(view(p2))
+//@   ensures [C20 sticky] old(wfailed(p2)) ==> p2.opError == old(p2.opError) && wfailed(p2) && view(p2) == old(view(p2))
 //@   ensures [C20 append] !old(wfailed(p2)) ==> !wfailed(p2) && view(p2) == cat(old(view(p2)), be16(p)) && p2.written == old(p2.written) + 2
 
 //@ func (p2 *Writer) WriteUint32
@@ -38,7 +38,7 @@ package packet
 //@   requires winv(p2)
 //@   modifies p2.written, p2.buf.B
 //@   ensures winv(p2)
-//@   ensures [C20 sticky] old(wfailed(p2)) ==> wfailed(p2) && view(p2) == old(view(p2))
+//@   ensures [C20 sticky] old(wfailed(p2)) ==> p2.opError == old(p2.opError) && wfailed(p2) && view(p2) == old(view(p2))
 //@   ensures [C20 append] !old(wfailed(p2)) ==> !wfailed(p2) && view(p2) == cat(old(view(p2)), be32(p)) && p2.written == old(p2.written) + 4
 
 //@ func (p2 *Writer) WriteUint64
@@ -46,7 +46,7 @@ package packet
 //@   requires winv(p2)
 //@   modifies p2.written, p2.buf.B
 //@   ensures winv(p2)
-//@   ensures [C20 sticky] old(wfailed(p2)) ==> wfailed(p2) && view(p2) == old(view(p2))
+//@   ensures [C20 sticky] old(wfailed(p2)) ==> p2.opError == old(p2.opError) && wfailed(p2) && view(p2) == old(view(p2))
 //@   ensures [C20 append] !old(wfailed(p2)) ==> !wfailed(p2) && view(p2) == cat(old(view(p2)), be64(p)) && p2.written == old(p2.written) + 8
 
 //@ func (p2 *Writer) WriteBytes
@@ -54,7 +54,7 @@ package packet
 //@   requires winv(p2)
 //@   modifies p2.written, p2.buf.B, p2.opError
 //@   ensures winv(p2)
-//@   ensures [C20 sticky] old(wfailed(p2)) ==> wfailed(p2) && view(p2) == old(view(p2)) && p2.written == old(p2.written)
+//@   ensures [C20 sticky] old(wfailed(p2)) ==> p2.opError == old(p2.opError) && wfailed(p2) && view(p2) == old(view(p2)) && p2.written == old(p2.written)
 //@   ensures [C20 append] !old(wfailed(p2)) ==> !wfailed(p2) && view(p2) == cat(old(view(p2)), content(data)) && p2.written == old(p2.written) + len(data)
 
 //@ func (p2 *Writer) WriteString
@@ -62,7 +62,7 @@ package packet
 //@   requires winv(p2)
 //@   modifies p2.written, p2.buf.B, p2.opError
 //@   ensures winv(p2)
-//@   ensures [C20 sticky] old(wfailed(p2)) ==> wfailed(p2) && view(p2) == old(view(p2)) && p2.written == old(p2.written)
+//@   ensures [C20 sticky] old(wfailed(p2)) ==> p2.opError == old(p2.opError) && wfailed(p2) && view(p2) == old(view(p2)) && p2.written == old(p2.written)
 //@   ensures [C20 append] !old(wfailed(p2)) ==> !wfailed(p2) && view(p2) == cat(old(view(p2)), s) && p2.written == old(p2.written) + len(s)
 
 //@ func (p2 *Writer) WriteCString
@@ -70,7 +70,7 @@ package packet
 //@   requires winv(p2)
 //@   modifies p2.written, p2.buf.B, p2.opError
 //@   ensures winv(p2)
-//@   ensures [C20 sticky] old(wfailed(p2)) ==> wfailed(p2) && view(p2) == old(view(p2)) && p2.written == old(p2.written)
+//@   ensures [C20 sticky] old(wfailed(p2)) ==> p2.opError == old(p2.opError) && wfailed(p2) && view(p2) == old(view(p2)) && p2.written == old(p2.written)
 //@   ensures [C20 append] !old(wfailed(p2)) ==> !wfailed(p2) && view(p2) == cat(old(view(p2)), cstr(s)) && p2.written == old(p2.written) + len(s) + 1
 
 //@ func (p2 *Writer) WriteFixedLenString
@@ -78,7 +78,7 @@ package packet
 //@   requires winv(p2)
 //@   modifies p2.written, p2.buf.B, p2.opError
 //@   ensures winv(p2)
-//@   ensures [C20 sticky] old(wfailed(p2)) ==> wfailed(p2) && view(p2) == old(view(p2)) && p2.written == old(p2.written)
+//@   ensures [C20 sticky] old(wfailed(p2)) ==> p2.opError == old(p2.opError) && wfailed(p2) && view(p2) == old(view(p2)) && p2.written == old(p2.written)
 //@   ensures [C20 append] !old(wfailed(p2)) && len(s) <= n ==> !wfailed(p2) && view(p2) == cat(old(view(p2)), fixed(s, n)) && p2.written == old(p2.written) + n
 //@   ensures [C20,C01 refuse] !old(wfailed(p2)) && len(s) > n ==> wfailed(p2) && view(p2) == old(view(p2))
 
@@ -137,7 +137,7 @@ package packet
 //@   requires rinv(p)
 //@   modifies p.buffer.unread, p.opError
 //@   ensures rinv(p)
-//@   ensures [C20 sticky] old(rfailed(p)) ==> rfailed(p) && result == 0 && rem(p) == old(rem(p)) && (reof(p) <==> old(reof(p)))
+//@   ensures [C20 sticky] old(rfailed(p)) ==> p.opError == old(p.opError) && rfailed(p) && result == 0 && rem(p) == old(rem(p)) && (reof(p) <==> old(reof(p)))
 //@   ensures [C20 ok] !old(rfailed(p)) && len(old(rem(p))) >= 1 ==> !rfailed(p) && result == at(old(rem(p)), 0) && rem(p) == drop(old(rem(p)), 1)
 //@   ensures [C20 short] !old(rfailed(p)) && len(old(rem(p))) < 1 ==> rfailed(p) && result == 0 && rem(p) == eps && reof(p)
 //@   ensures [C20 obs.fail] !old(rfailed(p)) ==> (rfailed(p) <==> !ok8(old(rem(p))))
@@ -149,7 +149,7 @@ package packet
 //@   requires rinv(p)
 //@   modifies p.buffer.unread, p.opError
 //@   ensures rinv(p)
-//@   ensures [C20 sticky] old(rfailed(p)) ==> rfailed(p) && result == 0 && rem(p) == old(rem(p)) && (reof(p) <==> old(reof(p)))
+//@   ensures [C20 sticky] old(rfailed(p)) ==> p.opError == old(p.opError) && rfailed(p) && result == 0 && rem(p) == old(rem(p)) && (reof(p) <==> old(reof(p)))
 //@   ensures [C20 ok] !old(rfailed(p)) && len(old(rem(p))) >= 2 ==> !rfailed(p) && result == dbe16(take(old(rem(p)), 2)) && rem(p) == drop(old(rem(p)), 2)
 //@   ensures [C20 short] !old(rfailed(p)) && len(old(rem(p))) < 2 ==> rfailed(p) && result == 0 && rem(p) == eps && (reof(p) <==> len(old(rem(p))) == 0)
 //@   ensures [C20 obs.fail] !old(rfailed(p)) ==> (rfailed(p) <==> !ok16(old(rem(p))))
@@ -161,7 +161,7 @@ package packet
 //@   requires rinv(p)
 //@   modifies p.buffer.unread, p.opError
 //@   ensures rinv(p)
-//@   ensures [C20 sticky] old(rfailed(p)) ==> rfailed(p) && result == 0 && rem(p) == old(rem(p)) && (reof(p) <==> old(reof(p)))
+//@   ensures [C20 sticky] old(rfailed(p)) ==> p.opError == old(p.opError) && rfailed(p) && result == 0 && rem(p) == old(rem(p)) && (reof(p) <==> old(reof(p)))
 //@   ensures [C20 ok] !old(rfailed(p)) && len(old(rem(p))) >= 4 ==> !rfailed(p) && result == dbe32(take(old(rem(p)), 4)) && rem(p) == drop(old(rem(p)), 4)
 //@   ensures [C20 short] !old(rfailed(p)) && len(old(rem(p))) < 4 ==> rfailed(p) && result == 0 && rem(p) == eps && (reof(p) <==> len(old(rem(p))) == 0)
 //@   ensures [C20 obs.fail] !old(rfailed(p)) ==> (rfailed(p) <==> !ok32(old(rem(p))))
@@ -173,7 +173,7 @@ package packet
 //@   requires rinv(p)
 //@   modifies p.buffer.unread, p.opError
 //@   ensures rinv(p)
-//@   ensures [C20 sticky] old(rfailed(p)) ==> rfailed(p) && result == 0 && rem(p) == old(rem(p)) && (reof(p) <==> old(reof(p)))
+//@   ensures [C20 sticky] old(rfailed(p)) ==> p.opError == old(p.opError) && rfailed(p) && result == 0 && rem(p) == old(rem(p)) && (reof(p) <==> old(reof(p)))
 //@   ensures [C20 ok] !old(rfailed(p)) && len(old(rem(p))) >= 8 ==> !rfailed(p) && result == dbe64(take(old(rem(p)), 8)) && rem(p) == drop(old(rem(p)), 8)
 //@   ensures [C20 short] !old(rfailed(p)) && len(old(rem(p))) < 8 ==> rfailed(p) && result == 0 && rem(p) == eps && (reof(p) <==> len(old(rem(p))) == 0)
 //@   ensures [C20 obs.fail] !old(rfailed(p)) ==> (rfailed(p) <==> !ok64(old(rem(p))))
@@ -185,7 +185,7 @@ package packet
 //@   requires rinv(p)
 //@   modifies p.buffer.unread, p.opError, mem(receiver)
 //@   ensures rinv(p)
-//@   ensures [C20 sticky] old(rfailed(p)) ==> rfailed(p) && rem(p) == old(rem(p)) && content(receiver) == old(content(receiver)) && (reof(p) <==> old(reof(p)))
+//@   ensures [C20 sticky] old(rfailed(p)) ==> p.opError == old(p.opError) && rfailed(p) && rem(p) == old(rem(p)) && content(receiver) == old(content(receiver)) && (reof(p) <==> old(reof(p)))
 //@   ensures [C20 empty] !old(rfailed(p)) && len(receiver) == 0 ==> !rfailed(p) && rem(p) == old(rem(p))
 //@   ensures [C20 ok] !old(rfailed(p)) && len(receiver) > 0 && len(old(rem(p))) >= len(receiver) ==> !rfailed(p) && content(receiver) == take(old(rem(p)), len(receiver)) && rem(p) == drop(old(rem(p)), len(receiver))
 //@   ensures [C20 short] !old(rfailed(p)) && len(receiver) > 0 && len(old(rem(p))) < len(receiver) ==> rfailed(p) && rem(p) == eps && (reof(p) <==> len(old(rem(p))) == 0)
@@ -204,7 +204,7 @@ package packet
 //@   modifies p.buffer.unread, p.opError
 //@   option alloc = 2 * min(max(n, 0), len(rem(p)))
 //@   ensures rinv(p)
-//@   ensures [C20 sticky] old(rfailed(p)) ==> rfailed(p) && result == eps && rem(p) == old(rem(p)) && (reof(p) <==> old(reof(p)))
+//@   ensures [C20 sticky] old(rfailed(p)) ==> p.opError == old(p.opError) && rfailed(p) && result == eps && rem(p) == old(rem(p)) && (reof(p) <==> old(reof(p)))
 //@   ensures [C20 nonpos] !old(rfailed(p)) && n <= 0 ==> !rfailed(p) && result == eps && rem(p) == old(rem(p))
 //@   ensures [C20 ok] !old(rfailed(p)) && n > 0 && len(old(rem(p))) >= n ==> !rfailed(p) && rem(p) == drop(old(rem(p)), n) && result == trim(take(old(rem(p)), n))
 //@   ensures [C20 short] !old(rfailed(p)) && n > 0 && len(old(rem(p))) < n ==> rfailed(p) && result == eps && rem(p) == old(rem(p)) && !reof(p)
@@ -218,7 +218,7 @@ package packet
 //@   modifies p.buffer.unread, p.opError
 //@   option alloc = 2 * min(max(n, 0), len(rem(p)))
 //@   ensures rinv(p)
-//@   ensures [C20 sticky] old(rfailed(p)) ==> rfailed(p) && result == eps && rem(p) == old(rem(p)) && (reof(p) <==> old(reof(p)))
+//@   ensures [C20 sticky] old(rfailed(p)) ==> p.opError == old(p.opError) && rfailed(p) && result == eps && rem(p) == old(rem(p)) && (reof(p) <==> old(reof(p)))
 //@   ensures [C20 nonpos] !old(rfailed(p)) && n <= 0 ==> !rfailed(p) && result == eps && rem(p) == old(rem(p))
 //@   ensures [C20 ok] !old(rfailed(p)) && n > 0 && len(old(rem(p))) >= n ==> !rfailed(p) && rem(p) == drop(old(rem(p)), n) && result == take(old(rem(p)), n)
 //@   ensures [C20 short] !old(rfailed(p)) && n > 0 && len(old(rem(p))) < n ==> rfailed(p) && result == eps && rem(p) == old(rem(p)) && !reof(p)
@@ -232,7 +232,7 @@ package packet
 //@   modifies p.buffer.unread, p.opError
 //@   option alloc = min(max(n, 0), len(rem(p)))
 //@   ensures rinv(p)
-//@   ensures [C20 sticky] old(rfailed(p)) ==> rfailed(p) && len(result) == 0 && rem(p) == old(rem(p)) && (reof(p) <==> old(reof(p)))
+//@   ensures [C20 sticky] old(rfailed(p)) ==> p.opError == old(p.opError) && rfailed(p) && len(result) == 0 && rem(p) == old(rem(p)) && (reof(p) <==> old(reof(p)))
 //@   ensures [C20 nonpos] !old(rfailed(p)) && n <= 0 ==> !rfailed(p) && len(result) == 0 && rem(p) == old(rem(p))
 //@   ensures [C20 ok] !old(rfailed(p)) && n > 0 && len(old(rem(p))) >= n ==> !rfailed(p) && rem(p) == drop(old(rem(p)), n) && result == take(old(rem(p)), n)
 //@   ensures [C20 short] !old(rfailed(p)) && n > 0 && len(old(rem(p))) < n ==> rfailed(p) && len(result) == 0 && rem(p) == old(rem(p)) && !reof(p)
@@ -247,7 +247,7 @@ package packet
 //@   modifies p.buffer.unread, p.opError
 //@   option alloc = len(rem(p))
 //@   ensures rinv(p)
-//@   ensures [C20 sticky] old(rfailed(p)) ==> rfailed(p) && result == eps && rem(p) == old(rem(p)) && (reof(p) <==> old(reof(p)))
+//@   ensures [C20 sticky] old(rfailed(p)) ==> p.opError == old(p.opError) && rfailed(p) && result == eps && rem(p) == old(rem(p)) && (reof(p) <==> old(reof(p)))
 //@   ensures [C20 ok] !old(rfailed(p)) && idx0(old(rem(p))) >= 0 ==> !rfailed(p) && result == take(old(rem(p)), idx0(old(rem(p)))) && rem(p) == drop(old(rem(p)), idx0(old(rem(p))) + 1)
 //@   ensures [C20 short] !old(rfailed(p)) && idx0(old(rem(p))) < 0 ==> rfailed(p) && result == eps && rem(p) == eps && reof(p)
 //@   ensures [C20 obs.fail] !old(rfailed(p)) ==> (rfailed(p) <==> !okZ(old(rem(p))))
